@@ -528,6 +528,34 @@ func (r *runner[C]) writeEvidence() {
 	os.WriteFile(out, js, 0o644)
 }
 
+// RaceMode reports whether this process is the -race twin started by the driver (VERIF_RACE=1).
+func RaceMode() bool { return os.Getenv("VERIF_RACE") == "1" }
+
+var raceOff int64
+
+// RaceDelta returns the race-detector reports written since the previous call ("" if none).
+// The driver starts the -race twin with GORACE=log_path=<p>, the runtime writes to <p>.<pid>
+// as soon as a race is detected; calling RaceDelta after every case attributes a report to the
+// case that produced it. Outside the race twin it always returns "".
+func RaceDelta() string {
+	lp := ""
+	for _, kv := range strings.Fields(os.Getenv("GORACE")) {
+		if strings.HasPrefix(kv, "log_path=") {
+			lp = kv[len("log_path="):]
+		}
+	}
+	if lp == "" {
+		return ""
+	}
+	b, err := os.ReadFile(fmt.Sprintf("%s.%d", lp, os.Getpid()))
+	if err != nil || int64(len(b)) <= raceOff {
+		return ""
+	}
+	d := string(b[raceOff:])
+	raceOff = int64(len(b))
+	return d
+}
+
 // Try runs f and returns the recovered panic value (nil if none) with a short stack.
 func Try(f func()) (p interface{}, stack string) {
 	defer func() {
